@@ -173,6 +173,12 @@ pub fn check_program_entry(
     check_program_hooks(tag, ws, cfg, prog, model, pre, entry).0
 }
 
+thread_local! {
+    /// while set, explicit collection requests in the rendered program are replaced by `void` (C04 uses this
+    /// to tell whether a failure needs a collection at all)
+    pub static STRIP_GC_POINTS: std::cell::Cell<bool> = const { std::cell::Cell::new(false) };
+}
+
 /// also returns the hook counters read after the last step
 pub fn check_program_hooks(
     tag: &str,
@@ -214,6 +220,14 @@ fn check_program_inner(
         }
     };
     let extra = if entry == Entry::Module { 2 } else { 1 };
+    if STRIP_GC_POINTS.with(|c| c.get()) {
+        for st in steps.iter_mut() {
+            match st {
+                Step::Eval { src } | Step::Module { src, .. } => *src = src.replace("(#%gc-collect)", "void"),
+                _ => {}
+            }
+        }
+    }
     let mut case = Case::new(steps);
     case.timeout_ms = 6000;
     let r = ws.run(cfg, &case);
